@@ -188,7 +188,7 @@ def run(tier):
 
 def l3_defaults(defs):
     d = {"TWTables": "{}", "TWShapeKinds": "{}", "FreeDepth": "1", "FreeKeys": "{}", "FreeSlots": "{}", "GMDepth": "4", "GMWide": "1",
-         "GMMaxFld": "2", "GMMaxArr": "2", "GMTail": "2", "GMShallow": "2", "GMSeeds": "<< >>", "GMSlots": "{}", "GMFields": '{"uf1"}',
+         "GMMaxFld": "2", "GMMaxArr": "2", "GMTail": "2", "GMShallow": "2", "GMSeeds": "<< >>", "GMSlots": "{}", "GMFields": '{"uf1"}', "GMBelow": "{}",
          "GMKinds": '{"plain","num"}'}
     d.update(defs)
     return d
